@@ -795,3 +795,93 @@ def ingress_scenarios(w: RealWorld):
     run("f(g(C.a), t.b)", "resolve", nested, judge_nested)
     run("f(<column of another table>)", "foreign", lambda c, o: w.fn("f", EW, o.attrs["cols"]["o.a"]), lambda r, c, leaf: (r == ("raise", "ColumnNotFoundError"), f"gives {r}, documented: ColumnNotFoundError"))
     return out
+
+
+def case_scenarios_sql(w: RealWorld):
+    """the CaseExpr branch of `SqlImpl.compile_col_expr` interpreted: one WHEN per case, in the order of the cases, each with its
+    own condition and value (also when several cases have the same value), ELSE only when a default is given.
+    -> list of (description, ok, detail)"""
+    p = w.p
+    out = []
+    cls_ = Obj(w.env["SqlImpl"])
+    cls_.attrs.update({
+        "compile_lit": Native(lambda lit: Var(f"lit:{lit.attrs.get('val')!r}"), "cls.compile_lit"),
+        "sqa_type": Native(lambda t: Var("ty"), "cls.sqa_type"),
+        "pdt_type": Native(lambda t: _ModuleNS({"is_subtype": Native(lambda other: True, "Dtype.is_subtype")}), "cls.pdt_type"),
+    })  # fmt: skip
+    f = w.env["SqlImpl"].methods["compile_col_expr"].bind(cls_)
+    leaf, cache = w.source("t", ["a", "b", "c"])
+    cols = cache.attrs["cols"]
+    sqa_expr = {u: Var(f"col:{u}") for u in cols}
+
+    def lit(v):
+        e = w.lit(v)
+        e.attrs["val"] = v
+        e.attrs["_dtype"] = w.I
+        return e
+
+    def case(cases, default):
+        return p.new("tree.col_expr", "CaseExpr", cases=list(cases), default_val=default, _dtype=w.I, _ftype=w.F.ELEMENT_WISE, _fn_id="fn")
+
+    scen = [
+        ("three cases, the first and the last with the same value", [("t.a", 0), ("t.b", 1), ("t.c", 0)], 9),
+        ("two cases with equal values", [("t.a", 5), ("t.b", 5)], None),
+        ("distinct values", [("t.a", 1), ("t.b", 2), ("t.c", 3)], 0),
+        ("one case, no default", [("t.a", 1)], None),
+    ]
+    for label, cs, default in scen:
+        e = case([(cols[u], lit(v)) for u, v in cs], lit(default) if default is not None else None)
+        try:
+            t = p.call(f, [e, sqa_expr])
+        except PyRaise as ex:
+            out.append((f"case expression ({label}) compiles", False, f"SqlImpl.compile_col_expr raises {ex.name}: {ex.msg} for a case expression with {label}"))
+            continue
+        calls = [x for x in (t.walk() if isinstance(t, Term) else []) if isinstance(x, Term) and x.fn.split(".")[-1] == "case"]
+        if len(calls) != 1:
+            out.append((f"case expression ({label}): one CASE", False, f"a case expression with {label} compiles to {str(t)[:200]} ({len(calls)} CASE constructs)"))
+            continue
+        c = calls[0]
+        raw = []
+        for a_ in c.args:
+            for wh in (a_ if isinstance(a_, list) else [a_]):
+                if isinstance(wh, (tuple, list)) and len(wh) == 2:
+                    raw.append(wh)
+        whens = [(repr(a_), repr(b_)) for a_, b_ in raw]
+        want = [(repr(Var(f"col:{u}")), repr(Var(f"lit:{v!r}"))) for u, v in cs]
+        else_ = c.kwargs.get("else_")
+        ok = whens == want and ((else_ is None) == (default is None)) and (default is None or repr(else_) == repr(Var(f"lit:{default!r}")))
+        if not ok:
+            # not branch by branch: the statement may still mean the same - evaluated for every valuation of the conditions over
+            # {true, false, null} (three-valued or / and / not; the first true WHEN decides, else ELSE / NULL)
+            import itertools as _it
+
+            def ev3(t_, val):
+                if isinstance(t_, Var) and t_.name in val:
+                    return val[t_.name]
+                if isinstance(t_, Term) and t_.fn in ("op:BitOr", "op:BitAnd") and len(t_.args) == 2:
+                    x, y = ev3(t_.args[0], val), ev3(t_.args[1], val)
+                    if t_.fn == "op:BitOr":
+                        return True if True in (x, y) else None if None in (x, y) else False
+                    return False if False in (x, y) else None if None in (x, y) else True
+                if isinstance(t_, Term) and t_.fn in ("op:Invert", "op:Not") and len(t_.args) == 1:
+                    x = ev3(t_.args[0], val)
+                    return None if x is None else not x
+                raise KeyError(repr(t_))
+
+            names = [f"col:{u}" for u, _ in cs]
+            try:
+                same = True
+                for vals in _it.product((True, False, None), repeat=len(names)):
+                    val = dict(zip(names, vals))
+                    doc = next((repr(Var(f"lit:{v!r}")) for (u, v) in cs if val[f"col:{u}"] is True), repr(Var(f"lit:{default!r}")) if default is not None else None)
+                    got = next((repr(b_) for a_, b_ in raw if ev3(a_, val) is True), repr(else_) if else_ is not None else None)
+                    if doc != got:
+                        same = False
+                        break
+                ok = same
+            except KeyError:
+                ok = False
+        out.append((f"case expression ({label}): WHEN branches in order, one per case", ok,
+                    f"a case expression with {label} compiles to WHEN {whens} ELSE {else_!r}; documented: one WHEN per case in the order given ({want}) - "
+                    "the first true branch decides, so merging or re-ordering branches changes the result for rows on which several conditions hold"))  # fmt: skip
+    return out
